@@ -244,7 +244,9 @@ func (c *xdsClient) markAnswered(t string, names ...string) {
 func (c *xdsClient) unanswered() []string {
 	var out []string
 	for t, s := range c.sub {
-		if s.wildcard || !s.requested {
+		if s.wildcard || !s.requested || s.rejected {
+			// after a rejection the property makes no claim about the subscription record (a NACK's
+			// resource names are not processed), so no answer is demanded until the next accepted response
 			continue
 		}
 		for n := range s.names {
